@@ -142,6 +142,8 @@ def r20_2(run):
             for lp_ in [x for x in walk_unit(up) if isinstance(x, ast.For) and any(y is a for a in node_asts(n) for y in ast.walk(x))]:
                 comps = [c for c in ast.walk(lp_.iter) if isinstance(c, ast.comprehension)]
                 conds = [i_ for c in comps for i_ in c.ifs]
+                # (part of the filter may be a test around the delete inside the loop body: for k in keys: if k != name: del ...)
+                conds += [t_.ast for t_, lab_ in g.guarded_by(n, lambda x: isinstance(x, ast.Compare)) if lab_ == 'T' and any(y is t_.ast for y in ast.walk(lp_))]
                 txt = ' '.join(src(i_) for i_ in conds)
                 mapvar = assigned_targets(looks[0].ast)[0] if looks else None
                 same = any(isinstance(x, ast.Compare) and isinstance(x.ops[0], ast.Is) and mapvar in (dotted(x.left), dotted(x.comparators[0])) for i_ in conds for x in ast.walk(i_))
@@ -287,15 +289,41 @@ def r20_3(run):
     run.ob('R20.3', up, up.node, 'the old expiry is read before it is overwritten', ok, slot='oldexpires', message='oldexpires not taken from self.expires before the update')
 
 
+def _announces(a, what):
+    """a call that announces `what` to the listeners: <map>.notify('<what>', ...) or <listener>.<what>(...) (the direct form)"""
+    if not isinstance(a, ast.Call):
+        return False
+    if callee_attr(a) == 'notify' and a.args and const(a.args[0]) == what:
+        return True
+    return callee_attr(a) == what and isinstance(a.func, ast.Attribute) and isinstance(a.func.value, ast.Name)
+
+
+def _known_test(g, up, t):
+    """(matches, label on which the name is NEW) for a test atom of AddrMap.update: `name in/not in self.addr`, or a flag that was
+    computed as such a comparison before anything is stored into self.addr"""
+    a = t.ast if hasattr(t, 'ast') else t
+    if isinstance(a, ast.Compare) and len(a.ops) == 1 and isinstance(a.ops[0], (ast.In, ast.NotIn)) and dotted(a.comparators[0]) == 'self.addr':
+        return True, ('F' if isinstance(a.ops[0], ast.In) else 'T')
+    if isinstance(a, ast.Name):
+        d = single_def(local_defs(up), a.id)
+        if d and d[0] == 'expr' and isinstance(d[1], ast.Compare) and len(d[1].ops) == 1 and isinstance(d[1].ops[0], (ast.In, ast.NotIn)) and dotted(d[1].comparators[0]) == 'self.addr':
+            dn = [n for n in g.real_nodes() if n.kind == 'stmt' and isinstance(n.ast, ast.Assign) and a.id in assigned_targets(n.ast)]
+            ins = [n for n in g.real_nodes() if n.kind == 'stmt' and isinstance(n.ast, (ast.Assign, ast.Delete)) and
+                   any(isinstance(x, ast.Subscript) and dotted(x.value) == 'self.addr' and isinstance(x.ctx, (ast.Store, ast.Del)) for x in ast.walk(n.ast))]
+            if dn and not any(dn[0] in g.reachable([s_ for _, s_ in i_.succ], follow_exc=False) for i_ in ins):
+                return True, ('F' if isinstance(d[1].ops[0], ast.In) else 'T')
+    return False, None
+
+
 def r20_4(run):
     am = AM(run)
     up = M_(run, am, 'update')
     g = cfg_of(up)
-    ad = [n for n in g.real_nodes() if any(is_call_to(a, 'self.notify') and a.args and const(a.args[0]) == 'addrmap_added' for a in node_asts(n))]
+    ad = [n for n in g.real_nodes() if any(_announces(a, 'addrmap_added') and (callee_attr(a) != 'notify' or is_call_to(a, 'self.notify')) for a in node_asts(n))]
     run.floor('R20.4', 'addrmap_added notifications', len(ad), 1)
     for n in ad:
-        gd = g.guarded_by(n, lambda t: isinstance(t, ast.Compare) and isinstance(t.ops[0], (ast.In, ast.NotIn)) and dotted(t.comparators[0]) == 'self.addr')
-        ok = any((lab == 'F') == isinstance(t.ast.ops[0], ast.In) for t, lab in gd)
+        gd = g.guarded_by(n, lambda t: _known_test(g, up, t)[0])
+        ok = any(lab == _known_test(g, up, t)[1] for t, lab in gd)
         run.ob('R20.4', up, n.ast, '"added" is announced only for a new name', ok, slot='added-new-only', message='addrmap_added reachable for a name that is already mapped')
     for p in g.paths(loop_bound=1):
         run.paths_enumerated += 1
@@ -304,9 +332,13 @@ def r20_4(run):
         # exactly one for a new name, whatever kind of mapping it is (timed, NEVER, failed): the new-name leg always announces
         newleg = [b for n, b in p.took(lambda t: isinstance(t, ast.Compare) and isinstance(t.ops[0], (ast.In, ast.NotIn)) and dotted(t.comparators[0]) == 'self.addr')
                   if True]
-        tests_ = [(n, lab) for n, lab in p.steps if n.kind == 'test' and isinstance(n.ast, ast.Compare) and isinstance(n.ast.ops[0], (ast.In, ast.NotIn))
-                  and dotted(n.ast.comparators[0]) == 'self.addr']
-        is_new = any((lab == 'F') == isinstance(n.ast.ops[0], ast.In) for n, lab in tests_)
+        tests_ = [(n, lab) for n, lab in p.steps if n.kind == 'test' and _known_test(g, up, n)[0]]
+        is_new = any(lab == _known_test(g, up, n)[1] for n, lab in tests_)
+        # (a notification written as a loop over the listeners counts once however many listeners there are)
+        k = min(k, 1) if any(n in ad and any(isinstance(a, ast.Call) and callee_attr(a) == 'addrmap_added' for a in node_asts(n)) for n, _ in p.steps) else k
+        # ... and zero times when nobody listens: passing the head of the announcing loop is the announcement
+        if k == 0 and any(n.kind == 'iter' and any(x in ad for x in g.real_nodes() if any(y is x.ast for y in ast.walk(n.ast))) for n, _ in p.steps):
+            k = 1
         if is_new and p.exit != 'raise':
             run.ob('R20.4', up, up.node, 'a new name is always announced with "added"', k == 1, slot='added-always-for-new',
                    message='AddrMap.update can finish the new-name leg without addrmap_added (%s): e.g. a name whose first mapping never expires is stored but never announced' % p.describe(6))
@@ -323,9 +355,14 @@ def r20_4(run):
         if p.exit == 'raise':
             continue
         k = sum(1 for n, _ in p.steps for a in node_asts(n) if isinstance(a, ast.Call) and callee_attr(a) == 'notify')
+        direct = [n for n, _ in p.steps if any(_announces(a, 'addrmap_expired') and callee_attr(a) != 'notify' for a in node_asts(n))]
+        if not k and direct:
+            k = 1       # announced by a loop over the listeners (passed at least once on this path)
+        elif not k and any(_announces(a, 'addrmap_expired') and callee_attr(a) != 'notify' for a in walk_unit(ex)):
+            continue    # the zero-listener iteration of that loop
         run.ob('R20.4', ex, ex.node, 'one "expired" per expiry', k == 1, slot='expired-once', message='%d notifications in _expire' % k)
     dels = ge.nodes_where(lambda n: any(isinstance(a, ast.Delete) or (isinstance(a, ast.Call) and callee_attr(a) == 'pop') for a in node_asts(n)))
-    nots = ge.nodes_where(lambda n: any(isinstance(a, ast.Call) and callee_attr(a) == 'notify' for a in node_asts(n)))
+    nots = ge.nodes_where(lambda n: any(_announces(a, 'addrmap_expired') for a in node_asts(n)))
     iters = [n for n in ge.live if n.kind == 'iter']
     ok = bool(nots) and all(any(ge.dominates(x, n) for x in (dels + iters)) and not any(d in ge.reachable([s_ for _, s_ in n.succ]) for d in dels) for n in nots)
     run.ob('R20.4', ex, ex.node, 'the mapping is removed before listeners hear "expired"', ok, slot='remove-before-notify',
@@ -351,7 +388,7 @@ def r20_5(run):
     g = cfg_of(up)
     upd = g.nodes_where(lambda n: any(isinstance(a, ast.Call) and callee_attr(a) == 'update' and isinstance(receiver(a), ast.Name) for a in node_asts(n)))
     stores = g.nodes_where(lambda n: n.kind == 'stmt' and isinstance(n.ast, ast.Assign) and any(isinstance(t, ast.Subscript) and dotted(t.value) == 'self.addr' for t in n.ast.targets))
-    run.floor('R20.5', 'calls of Addr.update in AddrMap.update', len(upd), 2)
+    run.floor('R20.5', 'calls of Addr.update in AddrMap.update', len(upd), 1)
     run.floor('R20.5', 'stores into the map', len(stores), 3)
     # every ADDRMAP line reaches its mapping's update(): nothing (a CACHED flag, the kind of the current mapping ...) lets
     # AddrMap.update return before, because the property makes the *latest* event decide address and expiry
